@@ -1710,6 +1710,121 @@ Proof.
   - apply argmax_none in E. rewrite E in Hlen. cbn in Hlen. lia.
 Qed.
 
+(* ---- uniqueness of the peak for a delayed copy ---- *)
+(* a sequence on 0..N-1 whose every non-zero sample has an equal sample e places further,
+   still inside the window (e <> 0), is identically zero *)
+Lemma propagating_zero N (a : nat -> Z) e : e <> 0 ->
+  (forall j, (j < N)%nat -> a j <> 0 -> inr N (zn j + e) = true /\ a (Z.to_nat (zn j + e)) = a j) ->
+  forall j, (j < N)%nat -> a j = 0.
+Proof.
+  intros He H.
+  destruct (Z_lt_ge_dec 0 e) as [Hp|Hn].
+  - assert (Hk : forall k j, (j < N)%nat -> (N - j <= k)%nat -> a j = 0).
+    { induction k as [|k IH]; intros j Hj Hk; [lia|].
+      destruct (Z.eq_dec (a j) 0) as [|Hnz]; [assumption|].
+      destruct (H j Hj Hnz) as [Hin Heq]. unfold inr in Hin.
+      apply andb_prop in Hin. destruct Hin as [E1 E2]. apply Z.leb_le in E1. apply Z.ltb_lt in E2.
+      rewrite <- Heq. apply IH; lia. }
+    intros j Hj. apply (Hk N j Hj). lia.
+  - assert (Hk : forall k j, (j <= k)%nat -> (j < N)%nat -> a j = 0).
+    { induction k as [|k IH]; intros j Hk Hj.
+      - destruct (Z.eq_dec (a j) 0) as [|Hnz]; [assumption|].
+        destruct (H j Hj Hnz) as [Hin _]. unfold inr in Hin.
+        apply andb_prop in Hin. destruct Hin as [E1 _]. apply Z.leb_le in E1. lia.
+      - destruct (Nat.eq_dec j (S k)) as [->|Hne]; [|apply IH; lia].
+        destruct (Z.eq_dec (a (S k)) 0) as [|Hnz]; [assumption|].
+        destruct (H (S k) Hj Hnz) as [Hin Heq]. unfold inr in Hin.
+        apply andb_prop in Hin. destruct Hin as [E1 E2]. apply Z.leb_le in E1. apply Z.ltb_lt in E2.
+        rewrite <- Heq. apply IH; lia. }
+    intros j Hj. apply (Hk j j); lia.
+Qed.
+
+(* b = a delayed by m, nothing pushed out of the window (stated pointwise): then EVERY entry
+   of the correlation other than index floor(N/2) - m is STRICTLY below the energy *)
+Lemma corr_delayed_copy_strict N a b (m : Z) i :
+  (forall l, (l < N)%nat -> b l = if inr N (zn l - m) then a (Z.to_nat (zn l - m)) else 0) ->
+  (forall j, (j < N)%nat -> inr N (zn j + m) = false -> a j = 0) ->
+  zsum (fun l => b l * b l) N = zsum (fun l => a l * a l) N ->
+  0 < zsum (fun l => a l * a l) N ->
+  (i < N)%nat -> zn i <> zn (N / 2) - m ->
+  xc N a b i < zsum (fun l => a l * a l) N.
+Proof.
+  intros Hb Hout He HE Hi Hne.
+  destruct (Z_lt_ge_dec (xc N a b i) (zsum (fun l => a l * a l) N)) as [|Hge]; [assumption|].
+  exfalso.
+  pose proof (xc_equality N a b i ltac:(lia)) as Heq.
+  set (d := zn i - zn (N / 2)) in *.
+  assert (Hz : forall j, (j < N)%nat -> a j = 0).
+  { apply (propagating_zero N a (d + m)); [lia|].
+    intros j Hj Hnz.
+    destruct (inr N (zn j + m)) eqn:Ein; [|rewrite (Hout j Hj Ein) in Hnz; contradiction].
+    unfold inr in Ein. apply andb_prop in Ein. destruct Ein as [E1 E2].
+    apply Z.leb_le in E1. apply Z.ltb_lt in E2.
+    set (l := Z.to_nat (zn j + m)).
+    assert (Hl : (l < N)%nat) by (unfold l; lia).
+    assert (Hlj : zn l - m = zn j) by (unfold l; lia).
+    pose proof (Hb l Hl) as Hbl. rewrite Hlj in Hbl.
+    assert (Hinj : inr N (zn j) = true).
+    { unfold inr. apply andb_true_intro. split; [apply Z.leb_le|apply Z.ltb_lt]; lia. }
+    rewrite Hinj, Nat2Z.id in Hbl.
+    specialize (Heq l Hl). replace (zn l + d) with (zn j + (d + m)) in Heq by (unfold l; lia).
+    destruct (inr N (zn j + (d + m))).
+    - split; [reflexivity|]. rewrite Heq, Hbl. reflexivity.
+    - rewrite Hbl in Heq. contradiction. }
+  rewrite (zsum_ext _ (fun _ => 0)) in HE by (intros l Hl; rewrite (Hz l Hl); reflexivity).
+  rewrite zsum_zero in HE. lia.
+Qed.
+
+Lemma reindex_eq (f : nat -> Z) N M d :
+  zsum (fun l => if inr N (zn l + d) then f (Z.to_nat (zn l + d)) else 0) M
+  = zsum (fun j => if inr M (zn j - d) then f j else 0) N.
+Proof.
+  rewrite (zsum_ext _ (fun l => zsum (fun j => if (zn j =? zn l + d) then f j else 0) N))
+    by (intros l Hl; now rewrite zsum_pick).
+  rewrite zsum_swap. apply zsum_ext. intros j Hj.
+  rewrite (zsum_ext _ (fun l => if (zn l =? zn j - d) then f j else 0)).
+  - now rewrite (zsum_pick (fun _ => f j) M (zn j - d)).
+  - intros l Hl. destruct (Z.eqb_spec (zn j) (zn l + d)); destruct (Z.eqb_spec (zn l) (zn j - d)); try reflexivity; lia.
+Qed.
+
+(* a delayed copy with nothing pushed out has the same energy *)
+Lemma delayed_copy_energy N a b (m : Z) :
+  (forall l, (l < N)%nat -> b l = if inr N (zn l - m) then a (Z.to_nat (zn l - m)) else 0) ->
+  (forall j, (j < N)%nat -> inr N (zn j + m) = false -> a j = 0) ->
+  zsum (fun l => b l * b l) N = zsum (fun l => a l * a l) N.
+Proof.
+  intros Hb Hout.
+  rewrite (zsum_ext _ (fun l => if inr N (zn l + - m) then (fun j => a j * a j) (Z.to_nat (zn l + - m)) else 0)).
+  - pose proof (reindex_eq (fun j => a j * a j) N N (- m)) as R. cbv beta in R. rewrite R.
+    apply zsum_ext. intros j Hj.
+    replace (zn j - - m) with (zn j + m) by lia.
+    destruct (inr N (zn j + m)) eqn:E; [reflexivity|]. rewrite (Hout j Hj E). reflexivity.
+  - intros l Hl. rewrite (Hb l Hl). replace (zn l + - m) with (zn l - m) by lia.
+    destruct (inr N (zn l - m)); ring.
+Qed.
+
+(* wave_shift_corrmax on ANY integer waveform and its copy delayed by m samples (window
+   containing both, waveform not flat), every length: the correlation equals the energy at
+   index floor(N/2) - m and is strictly smaller everywhere else - np.argmax can only return
+   that index, and floor(N/2) - argmax = m. *)
+Lemma corr_delayed_copy_unique N a b (m : Z) :
+  (forall l, (l < N)%nat -> b l = if inr N (zn l - m) then a (Z.to_nat (zn l - m)) else 0) ->
+  (forall j, (j < N)%nat -> inr N (zn j + m) = false -> a j = 0) ->
+  0 < zsum (fun l => a l * a l) N -> 0 <= zn (N / 2) - m < zn N ->
+  xc N a b (Z.to_nat (zn (N / 2) - m)) = zsum (fun l => a l * a l) N /\
+  (forall i, (i < N)%nat -> i <> Z.to_nat (zn (N / 2) - m) ->
+     xc N a b i < xc N a b (Z.to_nat (zn (N / 2) - m))) /\
+  int_delay_of_peak N (Z.to_nat (zn (N / 2) - m)) = m.
+Proof.
+  intros Hb Hout HE Hi.
+  pose proof (delayed_copy_energy N a b m Hb Hout) as He.
+  destruct (corr_delayed_copy_peak N a b m Hb He Hi) as [Hpk _].
+  split; [exact Hpk|]. split.
+  - intros i Hlt Hne. rewrite Hpk.
+    apply (corr_delayed_copy_strict N a b m i Hb Hout He HE Hlt). lia.
+  - unfold int_delay_of_peak. lia.
+Qed.
+
 End XCorrZ.
 
 (* re-alignment with an integer delay: rolling back by m undoes a roll by m *)
